@@ -45,6 +45,8 @@ SCHEDS = [
     {"policy": "random", "p": 0.3, "preempt": "line"},
     {"policy": "pct", "d": 2, "horizon": 3000, "preempt": "line"},
     {"policy": "rr", "q": 3, "preempt": "line"},
+    {"policy": "random", "p": 0.5, "preempt": "sync"},
+    {"policy": "pct", "d": 2, "horizon": 150, "preempt": "sync"},
 ]
 RPTIDS = [1, 2, 3]
 CEIDS = [1, 2, 20, 50, 99]
@@ -89,8 +91,13 @@ def gen_plan(rng, tier, index):
             ops.append(["link", ents])
         elif r < 0.65:
             ops.append(["enable", rng.random() < 0.75, rng.choice([[], [rng.choice(CEIDS)], rng.sample(CEIDS, 2)])])
-        elif r < 0.85:
+        elif r < 0.78:
             ops.append(["trigger", rng.choice(KNOWN_CEIDS)])
+        elif r < 0.85:
+            # several events in one call; the host may withhold the S6F12 of the first report or reconfigure a later event
+            # while the first report is still unacknowledged
+            ops.append(["trigger_multi", rng.sample(KNOWN_CEIDS, rng.choice([2, 3, 3])),
+                        rng.choice(["plain", "withhold", "disable_mid", "unlink_mid"])])
         elif r < 0.93:
             ops.append(["setval", rng.choice([10, 11, 30]), rng.randrange(1000)])
         else:
@@ -200,9 +207,19 @@ def run(sim, plan):
         seen11["n"] += len(frames)
         return [parse_report(rc.decode_body(fr.body)) for fr in frames]
 
-    for op in plan["ops"]:
+    hold = {"on": False, "held": []}
+
+    def s6f11(fr):
+        if hold["on"]:
+            hold["on"] = False
+            hold["held"].append(fr)
+            return None
+        return rc.data(6, 12, False, fr.system, rc.enc(rc.b(0)))
+
+    peer.auto[(6, 11)] = s6f11
+
+    def run_op(op):
         kind = op[0]
-        hist.append(op)
         if kind == "define":
             ents = op[1]
             body = rc.ls(rc.u4(0), rc.ls(*[rc.ls(rc.u4(rid), rc.ls(*[rc.u4(v) for v in vids])) for rid, vids in ents]))
@@ -272,6 +289,12 @@ def run(sim, plan):
                 for ce in ceids:
                     if ce in links:
                         enabled[ce] = None
+
+    for op in plan["ops"]:
+        kind = op[0]
+        hist.append(op)
+        if kind in ("define", "link", "enable"):
+            run_op(op)
         elif kind == "setval":
             vid, n = op[1], op[2]
             if vid == 11:
@@ -312,6 +335,52 @@ def run(sim, plan):
                 if c != ceid or rp != want:
                     sim.violation("C12.R4", f"S6F11 for event {ceid} carries CEID {c} reports {rp}, model expects {want}",
                                   sig="C12.R4|s6f11-content")
+        elif kind == "trigger_multi":
+            ceids, mode = op[1], op[2]
+            new_s6f11()
+            if any(c in links and enabled.get(c) is None for c in ceids):
+                continue        # the model does not know whether these are enabled
+
+            def is_on(c):
+                return c in links and enabled.get(c) is True
+
+            first_on = next((c for c in ceids if is_on(c)), None)
+            want = []
+            if mode == "plain" or first_on is None:
+                want = [(c, expected_rpt(c)) for c in ceids if is_on(c)]
+                eq.trigger_collection_events(list(ceids))
+                sim.advance(0.5)
+            else:
+                sim.probe("trigger_multi_" + mode)
+                rest = ceids[ceids.index(first_on) + 1:]
+                want.append((first_on, expected_rpt(first_on)))
+                hold["on"] = True
+                del hold["held"][:]
+                eq.trigger_collection_events(list(ceids))
+                if not sim.wait_until(lambda: hold["held"], 2.0):
+                    hold["on"] = False
+                    sim.violation("C12.R4", f"trigger of {ceids}: no S6F11 for enabled event {first_on}",
+                                  sig="C12.R4|s6f11-count-0|multi")
+                if mode in ("disable_mid", "unlink_mid") and rest:
+                    # while the first report waits for its S6F12 the host reconfigures the next event of the same call
+                    victim = rest[0]
+                    sub = ["enable", False, [victim]] if mode == "disable_mid" else ["link", [[victim, []]]]
+                    hist.append(sub)
+                    run_op(sub)
+                if mode == "withhold":
+                    sim.advance(T3 + 0.6)      # the report stays unacknowledged: the sender gives up after T3
+                else:
+                    peer.hp.send(rc.data(6, 12, False, hold["held"][0].system, rc.enc(rc.b(0))))
+                    sim.advance(0.5)
+                want += [(c, expected_rpt(c)) for c in rest if is_on(c)]
+                sim.advance(0.3)
+            got = new_s6f11()
+            if got != want:
+                sim.violation("C12.R4", f"trigger of {ceids} ({mode}): S6F11 sent for {[g[0] for g in got]}, expected "
+                              f"{[w[0] for w in want]}" + ("" if [g[0] for g in got] != [w[0] for w in want] else
+                                                          f"; contents {got} vs {want}") + f"; history {hist[-5:]}",
+                              sig=f"C12.R4|multi-{mode}|" + ("events" if [g[0] for g in got] != [w[0] for w in want]
+                                                               else "content"))
         elif kind == "s6f15":
             sim.probe("s6f15")
             check_s6f15(op[1], "s6f15 op")
